@@ -158,6 +158,12 @@ EXPLORE.update({
            "every world the answers are those of the matching applicable rule with the numerically smallest index. The "
            "library is Prolog text; the comparator behind its sort/2 is proved under C15. One known finding.",
 })
+EXPLORE.update({
+    "C32": "Run-time contract on select_weighted/4,5 and select_uniform/4 of library(lists) through the real pipeline for "
+           "seeded lists of length 1-6 (equal elements included) and positive weights: exactly one element, probability "
+           "weight/total, the rest in order, the same identifier makes the same choice, different identifiers are "
+           "independent. The library is Prolog text, so there is no Python body to put under a deductive contract.",
+})
 FUNCTION_LEVEL = ("C11", "C13", "C14", "C18")
 FN_BOUNDED_TECH = ("run-time contract (pre/post-condition against an independent reference) on the real functions over a "
                    "bounded input family; the deductive contracts planned for these functions were not built, so nothing "
